@@ -245,6 +245,9 @@ theorem rdOf_own_inert (s : Sess) (f : Frame)
   · split
     · split <;> rfl
     · rfl
+  · split
+    · split <;> rfl
+    · rfl
 
 /-- T1.4b `stream_delivery` (receive side of the pipe): for every frame sequence that keeps
 stream `k` registered — data for `k` interleaved in any way with frames of any other stream
